@@ -9,7 +9,7 @@ NOTES = ("All checks are generated-input search against an explicit oracle (rapi
          "enumeration, libFuzzer with in-target oracles, allocation-fault enumeration). ./check <id> rebuilds libhtp from /repo's working "
          "tree by content hash before every run. Known findings: /verif/known_findings.json. Design: /verif/DESIGN.md.")
 ENGINES = [
-    {"name": "rapidcheck", "path": "/verif/harness/rcx.hpp", "serves_properties": ["C02", "C03", "C04", "C05", "C06", "C07", "C10", "C11", "C12", "C13", "C14", "C15", "C16", "C17"], "kind_free_text": "property-based testing with integrated shrinking"},
+    {"name": "rapidcheck", "path": "/verif/harness/rcx.hpp", "serves_properties": ["C02", "C03", "C04", "C05", "C06", "C07", "C10", "C11", "C12", "C13", "C14", "C15", "C16", "C17", "C18", "C19"], "kind_free_text": "property-based testing with integrated shrinking"},
     {"name": "libFuzzer", "path": "/verif/fuzz/fuzz_stream.cpp", "serves_properties": ["C01", "C05", "C06", "C09", "C10"], "kind_free_text": "coverage-guided fuzzing, structure-aware decode, in-target oracles"},
     {"name": "enumerators", "path": "/verif/checks", "serves_properties": ["C12", "C13", "C15", "C17", "C18"], "kind_free_text": "exhaustive bounded enumeration, shortest first, sharded over 16 processes"},
 ]
@@ -118,4 +118,9 @@ META = {
         design_ref="DESIGN.md section 3, C17",
         level_note="Trusted: the reference models (std::deque, std::string::find, unsigned __int128), ASan/UBSan for memory errors; empty needles excluded.",
     ),
+    "C19": dict(
+        engine="rapidcheck multi-connection generator; single-thread call interleaver (ASan) + threaded runs under ThreadSanitizer",
+        technique="property-based testing over schedules: generated sets of 2..8 connections on one shared configuration, (a) harness-owned call-level interleavings, (b) concurrent threads under ThreadSanitizer; differential oracle against each connection's solo run plus an invariant over the shared configuration (byte snapshot, hook lists, umask)",
+        level_text=("Tens of thousands of generated interleavings and threaded rounds: every connection behaves exactly as when run alone, the shared configuration is never written, TSan reports no race. Exploration; thread schedules are sampled."),
+        design_ref="DESIGN.md section 3, C19", level_note="Trusted: ThreadSanitizer, the driver's canonical dump/trace. Thread schedules are not enumerated."),
 }
